@@ -95,6 +95,29 @@ def big(x: int):
     return x > 100
 
 
+def KW(name, ann):
+    """a keyword-only parameter `name: ann` (in a method's annotation list) / a keyword entry of a probe."""
+    return ("kw", name, ann)
+
+
+def _split(anns):
+    pos = [a for a in anns if not (isinstance(a, tuple) and a and a[0] == "kw")]
+    kw = [(a[1], a[2]) for a in anns if isinstance(a, tuple) and a and a[0] == "kw"]
+    return pos, kw
+
+
+def make_handler(name, anns, ret=None):
+    pos, kw = _split(anns)
+    g = {f"T{k}": a for k, a in enumerate(pos)}
+    g.update({f"K_{n_}": a for n_, a in kw})
+    params = [f"a{k}: T{k}" for k in range(len(pos))]
+    if kw:
+        params.append("*")
+        params += [f"{n_}: K_{n_}" for n_, _ in kw]
+    exec(f"def {name}({', '.join(params)}):\n    return {ret or name!r}\n", g)
+    return g[name]
+
+
 def families(tier):
     L = lambda *vs: Literal[tuple(vs)] if len(vs) > 1 else Literal[vs[0]]
     fam = []
@@ -145,9 +168,16 @@ def families(tier):
     # test must be part of the emitted check (the argument's class may come from the other branch)
     fam.append(([[(bool & Dependent[int, positive]) | L(5)]], [(int,), (bool,)]))
     fam.append(([[(bool & Dependent[int, positive]) | Dependent[int, big]], [L(7)]], [(int,), (bool,)]))
+    # keyword-only parameters in the value dispatcher (conditions on them; passed on as keywords on every path)
+    fam.append(([[Dependent[int, positive], KW("k", object)], [Dependent[int, even], KW("k", object)], [int, KW("k", object)]], [(int, KW("k", str))]))
+    fam.append(([[int, KW("mode", L("r"))], [int, KW("mode", L("w"))]], [(int, KW("mode", str))]))
+    fam.append(([[L(1), KW("mode", L("r"))], [L(2), KW("mode", str)]], [(int, KW("mode", str))]))
     # a union at one dispatched position next to a second conditioned position: the emitted conjunction must keep
     # the union's alternatives together (operator precedence of `or` / `and` in the emitted text)
     fam.append(([[L(1) | L("a"), L(5)]], [(int, int), (str, int)]))
+    fam.append(([[L(1, 2), L(5)]], [(int, int)]))
+    fam.append(([[L(2, 1), L(5)], [L(3), int]], [(int, int)]))
+    fam.append(([[L("a", "ab") & StartsWith["a"]]], [(str,)]))
     fam.append(([[Regexp["^a"] | Dependent[int, positive], L(5)], [str, L(6)]], [(str, int), (int, int)]))
     if tier == "thorough":
         fam.append(([[L(i)] for i in range(1, 8)], [(int,)]))
@@ -162,29 +192,23 @@ def main():
     for fi, (handlers_ann, probes) in enumerate(families(tier)):
         ov = Ovld(name=f"fam{fi}")
         fns = []
-        npos = len(handlers_ann[0])
+        pos0, kw0 = _split(handlers_ann[0])
+        npos = len(pos0)
         for hi, anns in enumerate(handlers_ann):
-            g = {f"T{k}": a for k, a in enumerate(anns)}
-            params = ", ".join(f"a{k}: T{k}" for k in range(len(anns)))
-            exec(f"def h{hi}({params}):\n    return 'h{hi}'\n", g)
-            fns.append(g[f"h{hi}"])
-            ov.register(g[f"h{hi}"])
-
-        def base(*a):
-            return "base"
-
-        base.__annotations__ = {}
-        exec("def base(" + ", ".join(f"a{k}: object" for k in range(npos)) + "):\n    return 'base'\n", g)
-        ov.register(g["base"])
+            fns.append(make_handler(f"h{hi}", anns))
+            ov.register(fns[-1])
+        ov.register(make_handler("base", [object] * npos + [KW(n_, object) for n_, _ in kw0]))
         try:
             ov.compile()
         except Exception as e:
             instances.append(dict(family=fi, error=f"compile: {type(e).__name__}: {e}"))
             continue
         registered = list(ov.map.type_tuples)  # adapted handlers in registration order
-        decl = [[describe_type(t) for t in ov.map.type_tuples[h]] for h in registered]
+        decl = [[describe_type(t[1] if isinstance(t, tuple) else t) for t in ov.map.type_tuples[h]] for h in registered]
+        kwnames = [n_ for n_, _ in kw0]
         for probe in probes:
-            key = tuple(probe)
+            key = tuple((e[1], e[2]) if (isinstance(e, tuple) and e and e[0] == "kw") else e for e in probe)
+            probe = [e[2] if (isinstance(e, tuple) and e and e[0] == "kw") else e for e in probe]
             try:
                 fn = ov.map[key]
             except Exception as e:
@@ -203,6 +227,7 @@ def main():
                     family=fi,
                     annotations=[[repr(a) for a in anns] for anns in handlers_ann],
                     probe=[c.__name__ for c in probe],
+                    kwnames=kwnames,
                     source=text,
                     globals=describe_globals(fn, registered),
                     declared=decl,
